@@ -12,8 +12,13 @@ MIN_NONTRIVIAL = {'quick': 1000, 'thorough': 10000}
 
 def run_check(run, tier, seed, shard):
     run.assume('Div/Mod/SignedDiv judged only for non-zero divisor; SignedDiv truncates toward zero; arithmetic shift and '
-               'rotations only for result width <= data width; rotation amounts <= data width')
+               'rotations only for result width <= data width (a narrower result holds the rotation reduced mod 2**width; a rotation by 0 or by '
+               'the width is the identity); rotation amounts <= data width (larger constants raise in propagate on the pinned tree)')
     combsweep.run_prop(run, 'C07', tier, seed, shard, 500 if tier == 'quick' else 2400)
+
+
+def post_merge(run, tier, seed):
+    combsweep.post_merge(run, 'C07', tier)
 
 
 def replay(run, case):
